@@ -277,7 +277,7 @@ def auto_radius_cases(tier):
     """Direct calls of _compute_site_radius: amplitudes x site sets with prescribed d_min."""
     out = []
     amps = [0.01, 0.1, 0.2, 0.26, 1.0, 5.0]
-    dmins = [0.4, 0.45, 0.505, 0.52, 0.6, 1.0, 3.0]
+    dmins = [0.0, 0.4, 0.45, 0.505, 0.52, 0.6, 1.0, 3.0]  # 0.0: the same position listed twice (through_face: once at x and once at x+1)
     lats = alphabets.lattices(tier, 0)
     for (lname, M), amp, dmin, through_face in itertools.product(lats, amps, dmins, (False, True)):
         out.append({'lat': lname, 'M': M.tolist(), 'amp': amp, 'dmin': dmin, 'through_face': through_face})
@@ -293,6 +293,9 @@ def eval_auto_radius(c):
     base = np.array([0.99, 0.5, 0.01]) if c['through_face'] else np.array([0.3, 0.4, 0.45])
     s0 = base
     s1 = (base @ M + c['dmin'] * u) @ Minv
+    if c['dmin'] == 0.0:
+        s0 = np.array([0.0, 0.5, 0.25]) if c['through_face'] else base
+        s1 = s0 + (np.array([1.0, 0.0, 0.0]) if c['through_face'] else 0.0)
     s2 = np.array([0.5, 0.05, 0.75])
     site_frac = np.array([s0, s1, s2])
     DS = geom.dist_matrix(site_frac, site_frac, M)
